@@ -135,6 +135,13 @@ def gen_line(rng, role_weight):
     w, a = rng.choice(cmds)
     if w == "LOGOUT" and pick < 0.7:
         w, a = "NOOP", ""
+    if w == "AUTHENTICATE":
+        a = rng.choice([None, "plain", "Plain", "pLaIn", "PLAIN", "XOAUTH2"])      # mechanism as typed; None = PLAIN
+    if rng.random() < 0.15 and not w.startswith("X"):
+        w = rng.choice([w.lower(), w.capitalize(), "".join(ch.lower() if i % 2 else ch for i, ch in enumerate(w))])
+        if w.upper() == "UID" and a:
+            f = a.split(" ", 1)
+            a = " ".join([f[0].lower()] + f[1:])
     return (w, a)
 
 
@@ -161,7 +168,9 @@ def compile_program(kind, prog, conn="c1", user=A, backend=None):
         full = [("STARTTLS", "")] + full
     script = []
     t = 0
-    for (w, a) in full:
+    for (typed, a) in full:
+        # the word is sent as typed (any case); branching and the model use its upper-case form
+        w = typed.upper()
         t += 1
         tag = "t%d" % t
         first = len(ops)
@@ -176,24 +185,24 @@ def compile_program(kind, prog, conn="c1", user=A, backend=None):
             continue
         if w == "LOGIN":
             pw = "pw"
-            line = "%s LOGIN %s %s\r\n" % (tag, user, pw)
+            line = "%s %s %s %s\r\n" % (tag, typed, user, pw)
             ops.append({"op": "send", "conn": conn, "data": line, "until": "tag:" + tag, "timeout_ms": 6000})
         elif w == "AUTHENTICATE":
             blob = base64.b64encode(("\0%s\0pw" % user).encode()).decode()
-            ops.append({"op": "send", "conn": conn, "data": "%s AUTHENTICATE PLAIN\r\n" % tag, "until": "cont:" + tag})
+            ops.append({"op": "send", "conn": conn, "data": "%s %s %s\r\n" % (tag, typed, a or "PLAIN"), "until": "cont:" + tag})
             ops.append({"op": "send", "conn": conn, "data": blob + "\r\n", "until": "tag:" + tag, "only_if_cont": True, "timeout_ms": 6000})
         elif w == "APPEND":
             m = msg("MKAPPENDED", user)
-            ops.append({"op": "send", "conn": conn, "data": "%s APPEND %s (\\Seen) {%d}\r\n" % (tag, a, len(m)), "until": "cont:" + tag})
+            ops.append({"op": "send", "conn": conn, "data": "%s %s %s (\\Seen) {%d}\r\n" % (tag, typed, a, len(m)), "until": "cont:" + tag})
             ops.append({"op": "send", "conn": conn, "data": m + "\r\n", "until": "tag:" + tag, "only_if_cont": True})
         elif w == "IDLE":
-            ops.append({"op": "send", "conn": conn, "data": "%s IDLE\r\n" % tag, "until": "cont:" + tag})
+            ops.append({"op": "send", "conn": conn, "data": "%s %s\r\n" % (tag, typed), "until": "cont:" + tag})
             ops.append({"op": "send", "conn": conn, "data": "DONE\r\n", "until": "tag:" + tag, "only_if_cont": True, "timeout_ms": 4000})
         elif w == "STARTTLS":
-            ops.append({"op": "send", "conn": conn, "data": "%s STARTTLS\r\n" % tag, "until": "tag:" + tag})
+            ops.append({"op": "send", "conn": conn, "data": "%s %s\r\n" % (tag, typed), "until": "tag:" + tag})
             ops.append({"op": "starttls", "conn": conn, "only_if_ok": True})
         else:
-            line = "%s %s%s\r\n" % (tag, w, (" " + a) if a else "")
+            line = "%s %s%s\r\n" % (tag, typed, (" " + a) if a else "")
             ops.append({"op": "send", "conn": conn, "data": line, "until": "tag:" + tag, "timeout_ms": 6000})
         ops.append({"op": "auth_take"})
         ops.append({"op": "dump"})
